@@ -85,6 +85,13 @@ def cases(ctx):
         ("map.label", [("lab", "str")], "{'type': 'map_value', 'label': lab}"),
         ("mol.all", [("k", "str"), ("n", "int"), ("lab", "str")], "{'key.eq': k, 'index.lt': n, 'list_condition': {'index.gt': 0}, 'map_condition': {'key.dtype.eq': 'str'}, 'label': lab}"),
         ("map.value.patharg", [("s", "str")], "{'type': 'map_value', 'value': {'value.in': [{'path': [s]}, 1]}}"),
+        # a combination LIST as the part's own condition, next to shorthand / long-form key and value conditions (which are
+        # and-combined with it): the caller's nested operand list stays as it is
+        ("map.andlist+short", [("k", "str"), ("t", "int")], "{'type': 'map_value', 'condition': {'and': [{'value.truthy': None}, {'value.is_instance': ['int']}]}, 'key.eq': k, 'value.gt': t}"),
+        ("map.andlist+long", [("k", "str"), ("t", "int")], "{'type': 'map_value', 'condition': {'and': [{'key.dtype.eq': 'str'}, {'key.length.lt': 3}]}, 'key': {'key.not_equal_to': k}, 'value': {'value.gt': t}}"),
+        ("map.orlist+short", [("k", "str"), ("t", "int")], "{'type': 'map_value', 'condition': {'or': [{'value.falsy': None}, {'value.gt': t}]}, 'key.eq': k}"),
+        ("mol.andlist.both", [("k", "str"), ("n", "int")], "{'condition': {'and': [{'value.truthy': None}, {'value.is_instance': ['int', 'str']}]}, 'list_condition': {'and': [{'index.lt': n}, {'index.gt': -1}]}, 'map_condition': {'and': [{'key.not_equal_to': k}]}, 'key.length.lt': 3, 'index.gte': 0, 'value.not_equal_to': None}"),
+        ("map.andtuple+short", [("k", "str"), ("t", "int")], "{'type': 'map_value', 'condition': {'and': ({'value.truthy': None}, {'value.not_equal_to': t})}, 'key.not_equal_to': k}"),
     ]
     for cid, extra, spec in part_specs:
         params = extra + [("u1", U)]
@@ -92,6 +99,8 @@ def cases(ctx):
         out.append(parse_case(f"c16.part.{cid}", params, [f"BU({L}, {names})"], spec, "ContainerValue.from_spec", L, probe=pm))
     out.append(parse_case("c16.part.list", [("n", "int"), ("t", "int"), ("u1", U)], [f"BU({L}, n, t, u1)"],
                           "{'type': 'list_value', 'index.lt': n, 'value': {'value.gt': t}}", "ContainerValue.from_spec", L, probe="OBJ.filter([u1, 0]).keys"))
+    out.append(parse_case("c16.part.list.andlist+short", [("n", "int"), ("t", "int"), ("u1", U)], [f"BU({L}, n, t, u1)"],
+                          "{'type': 'list_value', 'condition': {'and': [{'index.gte': 0}, {'value.not_equal_to': None}]}, 'index.lt': n, 'value.gt': t}", "ContainerValue.from_spec", L, probe="OBJ.filter([u1, 0, 5]).keys"))
     # paths
     gp = "outcome(lambda: OBJ.get_data({'a': {'b': u1}, 'l': [u1, 2]}, return_paths=True))"
     path_specs = [
